@@ -2576,7 +2576,9 @@ PIP_Solution_Node
 
         WEIGHT_ADD(140);
         if (is_parameter) {
-          p_row.insert(p_index, coeff_i * denom);
+          // Note: substituting a previous non-basic variable may already
+          // have contributed to this column.
+          add_mul_assign(p_row[p_index], coeff_i, denom);
           ++p_index;
         }
         else {
